@@ -1,11 +1,12 @@
 // C16: parse_pdf_obj under a depth bound; reports the context's depth after the call, from a fresh context, from a
-// context whose depth is already k0 (`at`), and over several parses on one context (`seq`).
+// context whose depth is already k0 (`at`), and over several parses on one context (`seq`).  `ind` cases / steps wrap
+// the input as the body of an indirect object and run parse_pdf_indirect_obj on the same context instead.
 // Every case runs on a thread with a FIXED 1 MiB stack (what a worker thread of a user of the crate would
 // have), so that the verdict on wide / long inputs does not depend on the 8 MiB of the main thread: stack use
 // that grows with the WIDTH or LENGTH of the input (instead of the nesting bound d) overflows it and kills
 // the process (`crash:<rc>` in ./check).
 use parsley_rust::pcore::parsebuffer::{ParseBuffer, ParseBufferT};
-use parsley_rust::pdf_lib::pdf_obj::{parse_pdf_obj, PDFObjContext, PDFObjT};
+use parsley_rust::pdf_lib::pdf_obj::{parse_pdf_indirect_obj, parse_pdf_obj, DictT, PDFObjContext, PDFObjT};
 use verif_harness::objfmt::obj_sexp;
 use verif_harness::*;
 
@@ -31,6 +32,18 @@ fn abs_mod(s: &str) -> u64 {
     // |n| mod M of a decimal i128 literal
     let v: i128 = s.trim().parse().unwrap();
     (v.unsigned_abs() % (M as u128)) as u64
+}
+fn digest_dict(d: &DictT) -> Dg {
+    let (mut n, mut k, mut w, mut h, mut c) = (0u64, 0u64, 0u64, 29u64, 0u64);
+    for (key, v) in d.map().iter() {
+        let x = digest(v.val());
+        n += x.nodes;
+        k = k.max(x.depth);
+        w = w.max(x.width);
+        h = (((h * 31 + kh(key.as_slice())) % M) * 31 + x.chk) % M;
+        c += 1;
+    }
+    Dg { nodes: 1 + n, depth: 1 + k, width: w.max(c), chk: h }
 }
 fn digest(o: &PDFObjT) -> Dg {
     match o {
@@ -60,18 +73,7 @@ fn digest(o: &PDFObjT) -> Dg {
             }
             Dg { nodes: 1 + n, depth: 1 + k, width: w.max(c), chk: h }
         },
-        PDFObjT::Dict(d) => {
-            let (mut n, mut k, mut w, mut h, mut c) = (0u64, 0u64, 0u64, 29u64, 0u64);
-            for (key, v) in d.map().iter() {
-                let x = digest(v.val());
-                n += x.nodes;
-                k = k.max(x.depth);
-                w = w.max(x.width);
-                h = (((h * 31 + kh(key.as_slice())) % M) * 31 + x.chk) % M;
-                c += 1;
-            }
-            Dg { nodes: 1 + n, depth: 1 + k, width: w.max(c), chk: h }
-        },
+        PDFObjT::Dict(d) => digest_dict(d),
         PDFObjT::Stream(_) => scalar(31),
     }
 }
@@ -183,34 +185,116 @@ fn big_bytes(w: &[&str]) -> Option<Vec<u8>> {
     Some(out)
 }
 
+// the input described by `w` (a `nest` / `cut` / `deep` / `wide` / `run` case WITH its bound word)
+fn case_bytes(w: &[&str]) -> Option<Vec<u8>> {
+    if w.len() < 3 {
+        return None
+    }
+    if w[0] == "wide" || w[0] == "run" {
+        big_bytes(w)
+    } else if w[0] == "deep" {
+        // `deep` cases carry a nesting profile instead of bytes: <n> copies of an opener
+        let n: usize = w[2].parse().ok()?;
+        let opener: &[u8] = if w.len() > 3 && w[3] == "dict" { b"<</K " } else { b"[" };
+        let mut v = Vec::with_capacity(n * opener.len());
+        for _ in 0 .. n {
+            v.extend_from_slice(opener);
+        }
+        Some(v)
+    } else if w[0] == "nest" || w[0] == "cut" {
+        Some(unhex(w[2]))
+    } else {
+        None
+    }
+}
+
+// `ind <d> <form> <num> <case without its bound word>`: the text of the indirect object around the body; must equal
+// indHead / indOpen / indClose of lean/Driver/C16.lean
+fn ind_bytes(form: &str, num: &str, body: &[u8]) -> Option<Vec<u8>> {
+    let (open, close): (&[u8], &[u8]) = match form {
+        "p" | "k" => (b"", b" endobj"),
+        "e" => (b"", b" endobx"),
+        "s" => (b"<</Length 3/K ", b">>\nstream\nabc\nendstream\nendobj"),
+        "t" => (b"<</Length 30/K ", b">>\nstream\nabc\nendstream\nendobj"),
+        "l" => (b"<</K ", b">>\nstream\nabc\nendstream\nendobj"),
+        _ => return None,
+    };
+    let _: usize = num.parse().ok()?;
+    let mut out = Vec::with_capacity(body.len() + 64);
+    out.extend_from_slice(num.as_bytes());
+    out.extend_from_slice(if form == "k" { b" 0 ob " } else { b" 0 obj " });
+    out.extend_from_slice(open);
+    out.extend_from_slice(body);
+    out.extend_from_slice(close);
+    Some(out)
+}
+
+// one parse_pdf_indirect_obj on the given context, whatever its current depth and definitions:
+// `ok <start> <end> <cursor> <depth delta> <num> <gen> <objstart> <objend> <value>` / `err <kind> <depth delta> <cursor>`
+fn ind_step(ctxt: &mut PDFObjContext, w: &[&str]) -> String {
+    if w.len() < 6 {
+        return "bad-case".to_string()
+    }
+    // the body's case with the bound word
+    let mut inner: Vec<&str> = vec![w[4], w[1]];
+    inner.extend_from_slice(&w[5 ..]);
+    let big = inner[0] == "wide" || inner[0] == "run";
+    let bytes = match case_bytes(&inner).and_then(|b| ind_bytes(w[2], w[3], &b)) {
+        Some(b) => b,
+        None => return "bad-case".to_string(),
+    };
+    let mut pb = ParseBuffer::new(bytes);
+    let before = ctxt.depth();
+    let r = parse_pdf_indirect_obj(ctxt, &mut pb);
+    let delta = ctxt.depth() as isize - before as isize;
+    match r {
+        Ok(v) => {
+            let o = v.val().obj();
+            let shown = if big {
+                match o.val() {
+                    PDFObjT::Stream(s) => {
+                        let g = digest_dict(s.dict().val());
+                        let c = s.stream().val();
+                        format!("dg n={} k={} w={} h={} st {} {}", g.nodes, g.depth, g.width, g.chk, c.start(), c.size())
+                    },
+                    ov => {
+                        let g = digest(ov);
+                        format!("dg n={} k={} w={} h={}", g.nodes, g.depth, g.width, g.chk)
+                    },
+                }
+            } else {
+                obj_sexp(o.val())
+            };
+            format!(
+                "ok {} {} {} {} {} {} {} {} {}",
+                v.start(),
+                v.end(),
+                pb.get_cursor(),
+                delta,
+                v.val().num(),
+                v.val().gen(),
+                o.start(),
+                o.end(),
+                shown
+            )
+        },
+        Err(e) => format!("err {} {} {}", errk(e.val()), delta, pb.get_cursor()),
+    }
+}
+
 // one parse of the input described by `w` (a `nest` / `cut` / `deep` / `wide` / `run` case WITH its bound word) on the
 // given context, whatever its current depth: result, span, cursor, depth after - depth before, value
 fn step(ctxt: &mut PDFObjContext, w: &[&str]) -> String {
     if w.len() < 3 {
         return "bad-case".to_string()
     }
+    if w[0] == "ind" {
+        return ind_step(ctxt, w)
+    }
     let big = w[0] == "wide" || w[0] == "run";
-    // `deep` cases carry a nesting profile instead of bytes: <n> copies of an opener
-    let bytes = if big {
-        match big_bytes(w) {
-            Some(b) => b,
-            None => return "bad-case".to_string(),
-        }
-    } else if w[0] == "deep" {
-        let n: usize = match w[2].parse() {
-            Ok(n) => n,
-            Err(_) => return "bad-case".to_string(),
-        };
-        let opener: &[u8] = if w.len() > 3 && w[3] == "dict" { b"<</K " } else { b"[" };
-        let mut v = Vec::with_capacity(n * opener.len());
-        for _ in 0 .. n {
-            v.extend_from_slice(opener);
-        }
-        v
-    } else if w[0] == "nest" || w[0] == "cut" {
-        unhex(w[2])
-    } else {
-        return "bad-case".to_string()
+    let bytes = match case_bytes(w) {
+        Some(b) => b,
+        None => return "bad-case".to_string(),
     };
     let mut pb = ParseBuffer::new(bytes);
     let before = ctxt.depth();
